@@ -51,6 +51,91 @@ type paramDesc struct {
 // a reference: >= 0 node index, < 0 parameter -(k+1)
 type nodeDesc struct {
 	In []int `json:"in"`
+	// Kind: 0 join (reads every input); nSwitch: In = [sel, a, b], reads sel, then a if
+	// cond(sel) else b — the other input is NOT read; nEarly: In = [a, b], reads a and returns
+	// early without reading b if cond(a).
+	Kind int `json:"kind,omitempty"`
+}
+
+const (
+	nJoin = iota
+	nSwitch
+	nEarly
+)
+
+// cond is the condition of the conditional-read nodes: parity of the byte sum of the text.
+func cond(s string) bool {
+	t := 0
+	for i := 0; i < len(s); i++ {
+		t += int(s[i])
+	}
+	return t%2 == 0
+}
+
+// eval is the reference evaluation with the conditional-read semantics: the rendering of r
+// and whether the evaluation reads a poisoned parameter (inputs that are not read do not count).
+func (g *graphDesc) eval(state []string, r int) (string, bool) {
+	if r < 0 {
+		k := -r - 1
+		return state[k], poisonDisplay(g.Params[k].Kind, state[k])
+	}
+	nd := g.Nodes[r]
+	var parts []string
+	read := func(in int) (string, bool) { return g.eval(state, in) }
+	switch nd.Kind {
+	case nSwitch:
+		sel, bad := read(nd.In[0])
+		if bad {
+			return "", true
+		}
+		br := nd.In[2]
+		if cond(sel) {
+			br = nd.In[1]
+		}
+		v, bad := read(br)
+		if bad {
+			return "", true
+		}
+		parts = []string{sel, v}
+	case nEarly:
+		a, bad := read(nd.In[0])
+		if bad {
+			return "", true
+		}
+		parts = []string{a}
+		if !cond(a) {
+			b, bad := read(nd.In[1])
+			if bad {
+				return "", true
+			}
+			parts = append(parts, b)
+		}
+	default:
+		for _, in := range nd.In {
+			v, bad := read(in)
+			if bad {
+				return "", true
+			}
+			parts = append(parts, v)
+		}
+	}
+	return fmt.Sprintf("n%d(%s)", r, strings.Join(parts, ",")), false
+}
+
+// conditional: the rendering of r has no fixed shape (some node below reads conditionally).
+func (g *graphDesc) conditional(r int) bool {
+	if r < 0 {
+		return false
+	}
+	if g.Nodes[r].Kind != nJoin {
+		return true
+	}
+	for _, in := range g.Nodes[r].In {
+		if g.conditional(in) {
+			return true
+		}
+	}
+	return false
 }
 
 type prodDesc struct {
@@ -102,12 +187,11 @@ func (g *graphDesc) artifactOf(state []string, pi int) string {
 	if pr.Stl {
 		return state[pr.Param]
 	}
-	for _, k := range g.occurrences(pr.Node, nil) {
-		if poisonDisplay(g.Params[k].Kind, state[k]) {
-			return panicOut
-		}
+	v, bad := g.eval(state, pr.Node)
+	if bad {
+		return panicOut
 	}
-	return g.render(state, pr.Node)
+	return v
 }
 
 // anyPoisoned: some producer's build would fail under `state`.
@@ -239,9 +323,21 @@ func designGraph(r *rand.Rand) *graphDesc {
 		{In: []int{pref(1), pref(2)}},
 		{In: []int{0, 1, pref(0)}},
 	}
-	g.Producers = []prodDesc{{Name: "out.txt", Node: 2}, {Name: "copy.txt", Node: 2}, {Name: "m1.txt", Node: 0}}
+	switch r.Intn(3) {
+	case 0:
+		// T switches on p1 between the two multi-level inputs M1 and M2
+		g.Nodes[2] = nodeDesc{Kind: nSwitch, In: []int{pref(0), 0, 1}}
+		g.Shape += "+switch"
+	case 1:
+		// an early-return node over M1 and M2 in front of T
+		g.Nodes = append(g.Nodes, nodeDesc{Kind: nEarly, In: []int{0, 1}})
+		g.Nodes[2], g.Nodes[3] = nodeDesc{Kind: nEarly, In: []int{0, 1}}, nodeDesc{In: []int{2, 1, pref(0)}}
+		g.Shape += "+early"
+	}
+	top := len(g.Nodes) - 1
+	g.Producers = []prodDesc{{Name: "out.txt", Node: top}, {Name: "copy.txt", Node: top}, {Name: "m1.txt", Node: 0}}
 	if r.Intn(2) == 0 {
-		g.Producers = append(g.Producers, prodDesc{Name: "slow.txt", Node: 2, SlowUS: 300 + r.Intn(2500)})
+		g.Producers = append(g.Producers, prodDesc{Name: "slow.txt", Node: top, SlowUS: 300 + r.Intn(2500)})
 	}
 	g.addStlProducers(r, 1)
 	return g
@@ -294,7 +390,19 @@ func randomGraph(r *rand.Rand) *graphDesc {
 			}
 		}
 		r.Shuffle(len(in), func(a, b int) { in[a], in[b] = in[b], in[a] })
-		g.Nodes = append(g.Nodes, nodeDesc{In: in})
+		nd := nodeDesc{In: in}
+		if i >= 2 && r.Intn(3) == 0 {
+			// conditional read over two earlier (multi-level) nodes
+			x := r.Intn(i)
+			y := (x + 1 + r.Intn(i-1)) % i
+			if r.Intn(2) == 0 {
+				nd = nodeDesc{Kind: nSwitch, In: []int{pref(r.Intn(np)), x, y}}
+			} else {
+				nd = nodeDesc{Kind: nEarly, In: []int{x, y}}
+			}
+			g.Shape = "random+cond"
+		}
+		g.Nodes = append(g.Nodes, nd)
 	}
 	// top: last mid, another node, and a parameter that already sits below (two routes)
 	a := nm - 1
@@ -306,6 +414,10 @@ func randomGraph(r *rand.Rand) *graphDesc {
 	top := nodeDesc{In: []int{a, b, pref(under[r.Intn(len(under))])}}
 	if a == b {
 		top.In = []int{a, pref(under[r.Intn(len(under))])}
+	}
+	if a != b && r.Intn(3) == 0 {
+		top = nodeDesc{Kind: nSwitch, In: []int{pref(under[r.Intn(len(under))]), a, b}}
+		g.Shape = "random+cond"
 	}
 	g.Nodes = append(g.Nodes, top)
 	t := len(g.Nodes) - 1
@@ -422,6 +534,57 @@ func (d JoinData) Process() (string, error) {
 }
 
 type JoinNode = nodes.Struct[string, JoinData]
+
+// SwitchData reads Sel and then ONLY the input the condition selects.
+type SwitchData struct {
+	Sel  nodes.NodeOutput[string]
+	A    nodes.NodeOutput[string]
+	B    nodes.NodeOutput[string]
+	Tag  string
+	Plan *pausePlan
+}
+
+func (d SwitchData) Process() (string, error) {
+	if d.Plan != nil {
+		atomic.AddInt64(d.Plan.execs, 1)
+	}
+	sel := d.Sel.Value()
+	d.Plan.pause(0)
+	var v string
+	if cond(sel) {
+		v = d.A.Value()
+	} else {
+		v = d.B.Value()
+	}
+	d.Plan.pause(1)
+	return d.Tag + "(" + sel + "," + v + ")", nil
+}
+
+type SwitchNode = nodes.Struct[string, SwitchData]
+
+// EarlyData reads A and returns early, without reading B, when the condition holds.
+type EarlyData struct {
+	A    nodes.NodeOutput[string]
+	B    nodes.NodeOutput[string]
+	Tag  string
+	Plan *pausePlan
+}
+
+func (d EarlyData) Process() (string, error) {
+	if d.Plan != nil {
+		atomic.AddInt64(d.Plan.execs, 1)
+	}
+	a := d.A.Value()
+	d.Plan.pause(0)
+	if cond(a) {
+		return d.Tag + "(" + a + ")", nil
+	}
+	b := d.B.Value()
+	d.Plan.pause(1)
+	return d.Tag + "(" + a + "," + b + ")", nil
+}
+
+type EarlyNode = nodes.Struct[string, EarlyData]
 
 // ItoaData turns an int parameter into its decimal text.
 type ItoaData struct {
@@ -792,6 +955,14 @@ func build(d *graphDesc, r *rand.Rand, intensity int, viaApp bool) *live {
 		return nouts[ref]
 	}
 	for i, nd := range d.Nodes {
+		switch nd.Kind {
+		case nSwitch:
+			nouts[i] = (&SwitchNode{Data: SwitchData{Sel: get(nd.In[0]), A: get(nd.In[1]), B: get(nd.In[2]), Tag: fmt.Sprintf("n%d", i), Plan: genPlan(r, &lv.execs, intensity)}}).Out()
+			continue
+		case nEarly:
+			nouts[i] = (&EarlyNode{Data: EarlyData{A: get(nd.In[0]), B: get(nd.In[1]), Tag: fmt.Sprintf("n%d", i), Plan: genPlan(r, &lv.execs, intensity)}}).Out()
+			continue
+		}
 		jd := JoinData{Tag: fmt.Sprintf("n%d", i), Plan: genPlan(r, &lv.execs, intensity)}
 		for s, in := range nd.In {
 			switch s {
